@@ -12,12 +12,12 @@ TB = ('Trusted: the MIR printed by the repository\'s pinned rustc is the MIR it 
 
 CHECKS = {
     'C06': ('syntax-tree + MIR table/dataflow rules over the checked-arithmetic chain (CHK-1..8, ERV-1); '
-            'partition abstract interpretation of the scalar division guards',
+            'partition abstract interpretation of the scalar division guards; decode-exactly-once typestate over compile_expr results (FLW-25); registry NULL-forwarding table (TBL-20)',
             'Decides the finite chain registry -> rewrite -> lowering -> factories -> operators -> scalar '
             'implementations -> SUM merge: a user-visible integer op can wrap only if a link maps checked to '
             'unchecked. Not decided: that operators compute the right number.', '5/C06'),
     'C08': ('MIR dominance / must-pass-through / dataflow rules on the write-ahead protocol '
-            '(ORD-3/4/5/10, FLW-3/4/5/17/18, LCK-1/2, LIT-3) on anchors with their helpers spliced in (return-variant threading)',
+            '(ORD-3/4/5/10/18, FLW-3/4/5/17/18, LCK-1/2, LIT-3, PAN-7) on anchors with their helpers spliced in (return-variant threading); call-graph reachability through spawned threads for the start-up replay (ORD-18)',
             'Decides on every CFG path the structural clauses acknowledged-data durability rests on: join before '
             'ack, atomic blob replace, no dropped storage error, flush order, cursor values, replay/delete split, '
             'ingestion/flush critical sections. Not decided: value equality of replayed content.', '5/C08'),
@@ -43,7 +43,7 @@ CHECKS = {
 }
 
 CHECKS.update({
-    'C01': ('syntax-tree width/tag table rules over the column builders (WID-1/2, TBL-1, LIT-1), MIR cast/dataflow rule on the f32 narrowing test (FLT-2), null-map forwarding (NUL-1)',
+    'C01': ('syntax-tree width/tag table rules over the column builders (WID-1/2, TBL-1, LIT-1), MIR cast/dataflow rule on the f32 narrowing test (FLT-2), null-map forwarding (NUL-1), bit-wise-only writes of the builder bitmap (NUL-5), one slot per element of a mixed buffer (NUL-6), no plain i64 difference of bounds / unchecked delta steps (FLW-24), panic-free path for a zero-row batch (PAN-7)',
             'Narrow claim: decides necessary structural conditions of the round trip (bound / element type / '
             'tag agreement per branch, identity tags, NULL markers, exact f32 round-trip test, null map never ignored by the builder). The round trip itself quantifies over '
             'runtime values and is NOT decided.', '5/C01'),
@@ -64,11 +64,11 @@ CHECKS.update({
     'C05': ('interprocedural MIR taint of LIMIT/OFFSET values (FLW-1), who-reads-offset (ORD-2), MIR structure of the multi-key sort and the top-n guard (ORD-13), abstract evaluation of the comparator syntax trees on all orderings of two keys (TBL-13), PAN-5, NUL-3',
             'Narrow claim: no unchecked arithmetic on the limit sentinel / offset and single application of the '
             'offset, stable last-to-first multi-key sort, top-n only for one key and never with n = 0, comparator impls mutually consistent incl. NULL placement for string keys. The order produced by the sort operators and the merge of sorted partial results NOT decided.', '5/C05'),
-    'C07': ('sibling-table comparison of the decode routines incl. null-map and input-from-stack clauses (TBL-4/5), MIR coverage rule (FLW-2), OPT-1, LIT-2, NUL-1',
+    'C07': ('sibling-table comparison of the decode routines incl. null-map and input-from-stack clauses (TBL-4/5), MIR coverage rule (FLW-2), OPT-1, LIT-2, NUL-1, NUL-2, NUL-5, FLW-11',
             'Narrow claim: the compaction-only decode routine handles what its siblings handle, compaction '
             'covers all names/parts/types, flush never unwraps an evictable payload, null maps survive decode and the column builder. Value preservation of '
             're-encoding NOT decided.', '5/C07'),
-    'C13': ('MIR order/lock rules + literal agreement (ORD-7, ORD-12, TBL-6, WHO-3, LIT-2, FLW-2, FLW-21), PAN-5',
+    'C13': ('MIR order/lock rules + literal agreement (ORD-7, ORD-12, TBL-6, WHO-3, LIT-2, FLW-2, FLW-21), PAN-5, registry NULL-forwarding table (TBL-20)',
             'Narrow claim: catalogue rows travel in the same segment, ingestion siblings agree, only they '
             'write the name set, catalogue literals agree. Exactly-once listing over histories NOT decided.',
             '5/C13'),
@@ -83,7 +83,7 @@ CHECKS.update({
             'Narrow claim: paths are built only from sanitised parts, predicates exclude separators/NUL and '
             'bound the length, modified names get the digest, columns sorted before grouping. The range lookup '
             'itself NOT decided.', '5/C15'),
-    'C16': ('syntax-tree codec/width tables (TBL-8/10/12, WID-3), MIR widening rule (FLW-12), MIR float-comparison rule on the XOR codec (FLT-1), LIT-1',
+    'C16': ('syntax-tree codec/width tables (TBL-8/10/12, WID-3), MIR widening rule (FLW-12), MIR float-comparison rule on the XOR codec (FLT-1), LIT-1, PAN-7 (an empty table buffer is applicable)',
             'Narrow claim: variants map to members the reader maps back, each narrow layout guarded by its own '
             'type bounds, double-delta only when first differences fit i64, widen before subtracting, XOR stream field widths/biases agree and the codec compares bit patterns only. The XOR state machine and delta arithmetic NOT decided.', '5/C16'),
     'C17': ('MIR rules on the HTTP handlers (ERV-3, ORD-9, ORD-14) + JSON/type-signature tables (TBL-11)',
